@@ -443,6 +443,85 @@ func pBool(name string, get func(s *c14rProf) *bool) c14rField {
 	}}
 }
 
+// c14rOnlyProf returns an alternative that replaces p1 by an all-default
+// profile in which only the settings copied by keep have the base values.
+func c14rOnlyProf(name string, keep func(dst, base *c14rProf)) c14rAlt {
+	return pAlt(name, func(s *c14rProf) {
+		plain := c14rPlainProf(s.ID)
+		if keep != nil {
+			keep(plain, c14rBaseProf())
+		}
+		*s = *plain
+	})
+}
+
+// c14rOnlyDev is c14rOnlyProf for device d1.
+func c14rOnlyDev(name string, keep func(dst, base *c14rDevice)) c14rAlt {
+	return dAlt(name, func(s *c14rDevice) {
+		plain := &c14rDevice{ID: s.ID}
+		if keep != nil {
+			keep(plain, c14rBaseDev())
+		}
+		*s = *plain
+	})
+}
+
+// c14rAccessParts are the five lists of the access settings.
+var c14rAccessParts = []struct {
+	name string
+	copy func(dst, base *c14rProf)
+}{
+	{"allowed-nets", func(dst, base *c14rProf) { dst.AllowedNets = base.AllowedNets }},
+	{"blocked-nets", func(dst, base *c14rProf) { dst.BlockedNets = base.BlockedNets }},
+	{"allowed-asn", func(dst, base *c14rProf) { dst.AllowedASN = base.AllowedASN }},
+	{"blocked-asn", func(dst, base *c14rProf) { dst.BlockedASN = base.BlockedASN }},
+	{"rules", func(dst, base *c14rProf) { dst.AccessRules = base.AccessRules }},
+}
+
+// c14rAccessOnlyAlts are the access settings with exactly one list, and with
+// exactly two lists, non-empty.
+func c14rAccessOnlyAlts() (alts []c14rAlt) {
+	only := func(name string, idx ...int) {
+		alts = append(alts, pAlt(name, func(s *c14rProf) {
+			base := c14rBaseProf()
+			s.AccessOn = true
+			s.AllowedNets, s.BlockedNets, s.AllowedASN, s.BlockedASN, s.AccessRules = nil, nil, nil, nil, nil
+			for _, i := range idx {
+				c14rAccessParts[i].copy(s, base)
+			}
+		}))
+	}
+	only("enabled-all-lists-empty")
+	for i, pt := range c14rAccessParts {
+		only("only-"+pt.name, i)
+	}
+	for i, a := range c14rAccessParts {
+		for j := i + 1; j < len(c14rAccessParts); j++ {
+			only("only-"+a.name+"+"+c14rAccessParts[j].name, i, j)
+		}
+	}
+
+	return alts
+}
+
+// c14rZero* reset a composite setting to its zero value.
+func c14rZeroParental(s *c14rProf) {
+	s.ParOn, s.Adult, s.SSGeneral, s.SSYouTube, s.Services, s.SchedOn = false, false, false, false, nil, false
+}
+
+func c14rZeroSafeBrowsing(s *c14rProf) { s.SBOn, s.SBDanger, s.SBNewly = false, false, false }
+
+func c14rZeroCustom(s *c14rProf) { s.CustomID, s.CustomTime, s.CustomRules, s.CustomOn = "", nil, nil, false }
+
+func c14rZeroFlags(s *c14rProf) {
+	s.Auto, s.Chrome, s.Firefox, s.Relay, s.Deleted, s.FiltOn, s.IPLog, s.QLog = false, false, false, false, false, false, false, false
+}
+
+func c14rCopyParental(dst, base *c14rProf) {
+	dst.ParOn, dst.Adult, dst.SSGeneral, dst.SSYouTube = base.ParOn, base.Adult, base.SSGeneral, base.SSYouTube
+	dst.Services, dst.SchedOn, dst.Week, dst.TZ = base.Services, base.SchedOn, base.Week, base.TZ
+}
+
 // c14rBaseShape is the world of the base case; see c14rParseShape.
 const c14rBaseShape = "p1:d1"
 
@@ -456,6 +535,67 @@ var c14rFields = []c14rField{
 		{name: "p1-without-devices", shape: "p1:;p2:d4"},
 		{name: "no-devices-at-all", shape: "p1:"},
 	}},
+	// "Only this is set" alternatives, whole record: an all-default profile
+	// that keeps the base value of one composite setting.  They come before
+	// the finer fields, whose deviations are applied on top.
+	{name: "Profile.Record", group: "profile", alts: []c14rAlt{
+		c14rOnlyProf("all-default", nil),
+		c14rOnlyProf("only-blocking-mode", func(dst, base *c14rProf) { dst.Mode = base.Mode }),
+		c14rOnlyProf("only-access", func(dst, base *c14rProf) {
+			dst.AccessOn = true
+			for _, pt := range c14rAccessParts {
+				pt.copy(dst, base)
+			}
+		}),
+		c14rOnlyProf("only-ratelimiter", func(dst, base *c14rProf) { dst.RLOn, dst.RLSubnets, dst.RPS = true, base.RLSubnets, base.RPS }),
+		c14rOnlyProf("only-custom-filter", func(dst, base *c14rProf) {
+			dst.CustomID, dst.CustomTime, dst.CustomRules, dst.CustomOn = base.CustomID, base.CustomTime, base.CustomRules, base.CustomOn
+		}),
+		c14rOnlyProf("only-parental", c14rCopyParental),
+		c14rOnlyProf("only-rule-list", func(dst, base *c14rProf) { dst.RuleListIDs, dst.RuleListOn = base.RuleListIDs, base.RuleListOn }),
+		c14rOnlyProf("only-safe-browsing", func(dst, base *c14rProf) { dst.SBOn, dst.SBDanger, dst.SBNewly = true, true, true }),
+		c14rOnlyProf("only-filtered-response-ttl", func(dst, base *c14rProf) { dst.TTL = base.TTL }),
+		c14rOnlyProf("only-flags", func(dst, base *c14rProf) {
+			dst.Auto, dst.Chrome, dst.Firefox, dst.Relay, dst.FiltOn, dst.IPLog, dst.QLog = true, true, true, true, true, true, true
+		}),
+	}},
+	// "Only this is set" alternatives inside the composite settings.
+	{name: "Profile.FilterConfig.Custom", group: "profile", alts: []c14rAlt{
+		pAlt("all-zero", c14rZeroCustom),
+		pAlt("only-id", func(s *c14rProf) { id := s.CustomID; c14rZeroCustom(s); s.CustomID = id }),
+		pAlt("only-update-time", func(s *c14rProf) { t := s.CustomTime; c14rZeroCustom(s); s.CustomTime = t }),
+		pAlt("only-rules", func(s *c14rProf) { r := s.CustomRules; c14rZeroCustom(s); s.CustomRules = r }),
+		pAlt("only-enabled", func(s *c14rProf) { c14rZeroCustom(s); s.CustomOn = true }),
+	}},
+	{name: "Profile.FilterConfig.Parental", group: "profile", alts: []c14rAlt{
+		pAlt("all-zero", c14rZeroParental),
+		pAlt("only-enabled", func(s *c14rProf) { c14rZeroParental(s); s.ParOn = true }),
+		pAlt("only-adult-blocking", func(s *c14rProf) { c14rZeroParental(s); s.Adult = true }),
+		pAlt("only-safe-search-general", func(s *c14rProf) { c14rZeroParental(s); s.SSGeneral = true }),
+		pAlt("only-safe-search-youtube", func(s *c14rProf) { c14rZeroParental(s); s.SSYouTube = true }),
+		pAlt("only-blocked-services", func(s *c14rProf) { v := s.Services; c14rZeroParental(s); s.Services = v }),
+		pAlt("only-pause-schedule", func(s *c14rProf) { c14rZeroParental(s); s.SchedOn = true }),
+	}},
+	{name: "Profile.FilterConfig.RuleList", group: "profile", alts: []c14rAlt{
+		pAlt("all-zero", func(s *c14rProf) { s.RuleListIDs, s.RuleListOn = nil, false }),
+	}},
+	{name: "Profile.FilterConfig.SafeBrowsing", group: "profile", alts: []c14rAlt{
+		pAlt("all-zero", c14rZeroSafeBrowsing),
+		pAlt("only-enabled", func(s *c14rProf) { c14rZeroSafeBrowsing(s); s.SBOn = true }),
+		pAlt("only-dangerous-domains", func(s *c14rProf) { c14rZeroSafeBrowsing(s); s.SBDanger = true }),
+		pAlt("only-newly-registered-domains", func(s *c14rProf) { c14rZeroSafeBrowsing(s); s.SBNewly = true }),
+	}},
+	{name: "Profile.Flags", group: "profile", alts: []c14rAlt{
+		pAlt("all-false", c14rZeroFlags),
+		pAlt("only-AutoDevicesEnabled", func(s *c14rProf) { c14rZeroFlags(s); s.Auto = true }),
+		pAlt("only-BlockChromePrefetch", func(s *c14rProf) { c14rZeroFlags(s); s.Chrome = true }),
+		pAlt("only-BlockFirefoxCanary", func(s *c14rProf) { c14rZeroFlags(s); s.Firefox = true }),
+		pAlt("only-BlockPrivateRelay", func(s *c14rProf) { c14rZeroFlags(s); s.Relay = true }),
+		pAlt("only-Deleted", func(s *c14rProf) { c14rZeroFlags(s); s.Deleted = true }),
+		pAlt("only-FilteringEnabled", func(s *c14rProf) { c14rZeroFlags(s); s.FiltOn = true }),
+		pAlt("only-IPLogEnabled", func(s *c14rProf) { c14rZeroFlags(s); s.IPLog = true }),
+		pAlt("only-QueryLogEnabled", func(s *c14rProf) { c14rZeroFlags(s); s.QLog = true }),
+	}},
 	{name: "Profile.BlockingMode", group: "profile", alts: []c14rAlt{
 		pAlt("custom-v4-only", func(s *c14rProf) { s.Mode = "custom-v4-only" }),
 		pAlt("custom-v6-only", func(s *c14rProf) { s.Mode = "custom-v6-only" }),
@@ -466,9 +606,9 @@ var c14rFields = []c14rField{
 		pAlt("refused", func(s *c14rProf) { s.Mode = "refused" }),
 		pAlt("null-ip", func(s *c14rProf) { s.Mode = "null-ip" }),
 	}},
-	{name: "Profile.Access", group: "profile", alts: []c14rAlt{
+	{name: "Profile.Access", group: "profile", alts: append([]c14rAlt{
 		pAlt("empty-profile", func(s *c14rProf) { s.AccessOn = false }),
-	}},
+	}, c14rAccessOnlyAlts()...)},
 	{name: "Profile.Access.AllowedNets", group: "profile", alts: []c14rAlt{
 		pAlt("nil", func(s *c14rProf) { s.AllowedNets = nil }),
 		pAlt("empty", func(s *c14rProf) { s.AllowedNets = []netip.Prefix{} }),
@@ -494,6 +634,7 @@ var c14rFields = []c14rField{
 	}},
 	{name: "Profile.Ratelimiter", group: "profile", alts: []c14rAlt{
 		pAlt("global", func(s *c14rProf) { s.RLOn = false }),
+		pAlt("own-without-subnets-rps-0", func(s *c14rProf) { s.RLOn, s.RLSubnets, s.RPS = true, nil, 0 }),
 	}},
 	{name: "Profile.Ratelimiter.ClientSubnets", group: "profile", alts: []c14rAlt{
 		pAlt("nil", func(s *c14rProf) { s.RLSubnets = nil }),
@@ -588,6 +729,15 @@ var c14rFields = []c14rField{
 	pBool("Profile.IPLogEnabled", func(s *c14rProf) *bool { return &s.IPLog }),
 	pBool("Profile.QueryLogEnabled", func(s *c14rProf) *bool { return &s.QLog }),
 
+	{name: "Device.Record", group: "device", alts: []c14rAlt{
+		c14rOnlyDev("all-default", nil),
+		c14rOnlyDev("only-auth", func(dst, base *c14rDevice) { dst.AuthOn, dst.DoHOnly, dst.Bcrypt = true, true, true }),
+		c14rOnlyDev("only-linked-ip", func(dst, base *c14rDevice) { dst.Linked = base.Linked }),
+		c14rOnlyDev("only-dedicated-ips", func(dst, base *c14rDevice) { dst.Dedicated = base.Dedicated }),
+		c14rOnlyDev("only-human-id", func(dst, base *c14rDevice) { dst.Human = base.Human }),
+		c14rOnlyDev("only-name", func(dst, base *c14rDevice) { dst.Name = base.Name }),
+		c14rOnlyDev("only-filtering-enabled", func(dst, base *c14rDevice) { dst.FiltOn = true }),
+	}},
 	// Auth is "never nil" (agd.Device), and when Enabled is false the other
 	// parameters do not work (agd.AuthSettings), so the alternatives are the
 	// disabled record and the four enabled combinations.
@@ -693,9 +843,23 @@ func c14rFindAlt(d c14rDev) (f *c14rField, a *c14rAlt) {
 	return nil, nil
 }
 
+func c14rFieldIndex(name string) int {
+	for i := range c14rFields {
+		if c14rFields[i].name == name {
+			return i
+		}
+	}
+	vrt.Fatalf("unknown field %q", name)
+
+	return -1
+}
+
 func c14rBuildWorld(c c14rCase) (w *c14rWorld) {
 	w = &c14rWorld{shape: c14rBaseShape, p1: c14rBaseProf(), d1: c14rBaseDev()}
-	for _, d := range c.Devs {
+	// Coarser fields come first in c14rFields; finer deviations go on top.
+	devs := slices.Clone(c.Devs)
+	sort.SliceStable(devs, func(i, j int) bool { return c14rFieldIndex(devs[i].F) < c14rFieldIndex(devs[j].F) })
+	for _, d := range devs {
 		_, a := c14rFindAlt(d)
 		switch {
 		case a.p != nil:
